@@ -4,6 +4,7 @@ package config
 
 import (
 	"context"
+	"encoding/json"
 	"errors"
 	"fmt"
 	"sort"
@@ -75,10 +76,14 @@ type c16world struct {
 	createFails  int
 	sendFailures int
 	cancelled    bool
+	down         bool // the discovery service is unreachable: no stream can be created
 }
 
 func (w *c16world) maker(ctx context.Context) (svcDiscoveryStream, error) {
 	sched.Op("stream-create", "stream")
+	if w.down {
+		return nil, errors.New("discovery service unreachable")
+	}
 	if w.createFails > 0 && sched.Choose(sched.ClsEnv, 2, "create-fails") == 1 {
 		w.createFails--
 		return nil, errors.New("cannot create stream")
@@ -225,7 +230,132 @@ func c16body(variant string) func() {
 	}
 }
 
+// ---------------------------------------------------------------------------
+// C16 (H) phases: every history of calls and stream outages, each step run to quiescence (retry timers
+// included) at the default schedule.
+//
+// alphabet  +x | -x | +y | -y | the stream breaks and the service stays unreachable | the service is reachable again
+// bound     length <= 5 (quick) / 6 (thorough)
+// oracle    after a final "reachable again": the set subscribed on the live stream = the client's set = the dependency set
+// ---------------------------------------------------------------------------
+
+var c16phaseOps = []string{"+x", "-x", "+y", "-y", "outage", "back"}
+
+type c16phaseCase struct {
+	Ops []int `json:"ops"`
+}
+
+func (c c16phaseCase) String() string {
+	var s []string
+	for _, o := range c.Ops {
+		s = append(s, c16phaseOps[o])
+	}
+	return strings.Join(s, " ")
+}
+
+func c16phaseRun(cs c16phaseCase) (sig, detail string) {
+	e := sched.RunOnce(nil, sched.Options{MaxSteps: 200000}, func() {
+		w := &c16world{}
+		w.c = newSvcDiscoveryClient("config", w.maker)
+		ctx, cancel := context.WithCancel(context.Background())
+		sched.GoNamed("Run", func() { w.c.Run(ctx) })
+		sched.Settle(4)
+		ref := map[string]bool{}
+		for _, o := range append(append([]int{}, cs.Ops...), 5) { // every history ends with the service reachable
+			switch op := c16phaseOps[o]; op {
+			case "outage":
+				w.down = true
+				if s := w.current(); s != nil {
+					s.broken = true
+				}
+			case "back":
+				w.down = false
+			default:
+				if op[0] == '+' {
+					w.c.Subscribe(op[1:])
+					ref[op[1:]] = true
+				} else {
+					w.c.Unsubscribe(op[1:])
+					delete(ref, op[1:])
+				}
+			}
+			sched.Settle(8)
+		}
+		cur := w.current()
+		if cur == nil {
+			sched.Fail("no-stream-at-quiescence / phases", fmt.Sprintf("history [%s]: %d streams created", cs, len(w.streams)))
+		} else if keysOf(cur.set) != keysOf(ref) {
+			sched.Fail("stream-subscriptions-differ-from-dependencies / after an outage", fmt.Sprintf("history [%s]: stream %d holds {%s}, dependencies {%s}", cs, cur.id, keysOf(cur.set), keysOf(ref)))
+		}
+		clientSet := map[string]bool{}
+		for k := range w.c.subscribed {
+			clientSet[k] = true
+		}
+		if keysOf(clientSet) != keysOf(ref) {
+			sched.Fail("client-set-differs-from-dependencies / phases", fmt.Sprintf("history [%s]: client %s, dependencies %s", cs, keysOf(clientSet), keysOf(ref)))
+		}
+		w.cancelled = true
+		cancel()
+	})
+	for _, f := range e.Failures {
+		return f.Sig, f.Detail
+	}
+	return "", ""
+}
+
+func c16phases(env sched.Env) *sched.Report {
+	rep := &sched.Report{Outcomes: map[string]int64{}, Complete: true}
+	depth := 5
+	if env.Tier == "thorough" {
+		depth = 6
+	}
+	sigs := map[string]bool{}
+	n := 0
+	var rec func(ops []int)
+	rec = func(ops []int) {
+		if len(ops) > 0 {
+			n++
+			if n%env.NShards == env.Shard {
+				cs := c16phaseCase{append([]int{}, ops...)}
+				sched.Progress(cs)
+				sig, detail := c16phaseRun(cs)
+				rep.Execs++
+				rep.Transitions += int64(len(ops))
+				if sig != "" {
+					rep.Outcomes["violation: "+sig]++
+					if !sigs[sig] {
+						sigs[sig] = true
+						rep.Violations = append(rep.Violations, sched.CustomViolation("C16/phases", sig, detail, cs))
+					}
+				} else {
+					rep.Outcomes["ok"]++
+				}
+			}
+		}
+		if len(ops) == depth {
+			return
+		}
+		for op := range c16phaseOps {
+			rec(append(ops, op))
+		}
+	}
+	rec(nil)
+	rep.States, rep.Distinct = rep.Execs, rep.Execs
+	rep.CustomSamples = []interface{}{c16phaseCase{[]int{0, 4, 1, 5, 0}}.String()}
+	return rep
+}
+
 func init() {
+	sched.Register(&sched.Scenario{Name: "C16/phases", Custom: c16phases, ReplayCustom: func(in json.RawMessage) []sched.Failure {
+		var cs c16phaseCase
+		json.Unmarshal(in, &cs)
+		sig, detail := c16phaseRun(cs)
+		fmt.Println(cs.String(), "->", sig, detail)
+		if sig == "" {
+			return nil
+		}
+		return []sched.Failure{{Sig: sig, Detail: detail}}
+	}})
 	reg := func(name, variant string, quick, thorough sched.Bounds) {
 		sched.Register(&sched.Scenario{Name: name, Setup: func(tier string) (sched.Config, func()) {
 			b := quick
